@@ -65,6 +65,7 @@ class GenDir:
         self.rng = rng
         self.files = {}
         self.bases = []          # (display names, basename, subdir, versions)
+        self.used = {}           # element file / component file -> the elements some table takes from it
         self.inconsistent = inconsistent
         self.refs = {'molssi_bse_schema': _schema('references')}
         nbasis = nbasis or rng.randint(1, 3)
@@ -113,6 +114,9 @@ class GenDir:
             'molssi_bse_schema': _schema('metadata'), 'names': names, 'tags': [], 'family': family,
             'description': 'generated basis %d' % i, 'role': rng.choice(['orbital', 'orbital', 'jkfit']),
             'auxiliaries': {} if i == 0 or rng.random() < 0.5 else {'jkfit': 'Gen-0' if rng.random() < 0.5 else ['Gen-0', base]}}
+        # the table may use only some of the elements its element files define (as 56 tables of the store do); what the
+        # unused elements carry (polarisation functions, ECPs) is no business of the table
+        tzs = list(zs) if len(zs) < 2 or rng.random() < 0.6 else sorted(rng.sample(zs, rng.randint(1, len(zs) - 1)))
         has_pol = rng.random() < 0.6
         has_ecp = rng.random() < 0.4 and any(z > 10 for z in zs)
         ecp_zs = [z for z in zs if z > 10 and rng.random() < 0.7] or [z for z in zs if z > 10][:1]
@@ -136,9 +140,12 @@ class GenDir:
                     for z in zs3:
                         extra.setdefault(z, []).append(c_ecp)
             efile = '%s/%s.%s.element.json' % (comp_sub, fbase, ver)
+            self.used[efile] = {str(z) for z in tzs}
+            for cfile in [c_main] + [c for cs in extra.values() for c in cs]:
+                self.used.setdefault(cfile, set()).update(str(z) for z in tzs)
             self.files[efile] = {'molssi_bse_schema': _schema('element'), 'name': base, 'description': 'element file',
                                  'elements': {str(z): {'components': [c_main] + extra.get(z, [])} for z in zs}}
-            order = list(zs)
+            order = list(tzs)
             if rng.random() < 0.3:
                 rng.shuffle(order)      # the table's own element order is what get_basis must keep
             tfile = os.path.join(sub, '%s.%s.table.json' % (fbase, ver)) if sub else '%s.%s.table.json' % (fbase, ver)
@@ -151,20 +158,20 @@ class GenDir:
                     or self.files[os.path.join(sub, '%s.metadata.json' % fbase)]
         if sub:
             self.files.pop('%s.metadata.json' % fbase, None)
-        self.bases.append({'names': names, 'basename': fbase, 'sub': sub, 'versions': versions, 'elements': zs})
+        self.bases.append({'names': names, 'basename': fbase, 'sub': sub, 'versions': versions, 'elements': tzs})
 
     def _break(self, how):
         rng = self.rng
         comps = [k for k, v in self.files.items() if isinstance(v, dict) and v.get('molssi_bse_schema', {}).get('schema_type') == 'component']
         efiles = [k for k, v in self.files.items() if isinstance(v, dict) and v.get('molssi_bse_schema', {}).get('schema_type') == 'element']
         if how == 'missing-element-in-component':
-            c = rng.choice(comps)
-            z = rng.choice(list(self.files[c]['elements']))
+            c = rng.choice([k for k in comps if set(self.files[k]['elements']) & self.used.get(k, set())] or comps)
+            z = rng.choice(sorted(set(self.files[c]['elements']) & self.used.get(c, set())) or list(self.files[c]['elements']))
             del self.files[c]['elements'][z]
             self.broken = (c, z)
         elif how == 'two-ecps':
             ef = rng.choice(efiles)
-            z = rng.choice(list(self.files[ef]['elements']))
+            z = rng.choice(sorted(set(self.files[ef]['elements']) & self.used.get(ef, set())) or list(self.files[ef]['elements']))
             for n in (1, 2):
                 c = '%s.extra_ecp%d.json' % (ef[:-len('.element.json')], n)
                 self._component(c, [int(z)], 'ecp', ['refx'])
@@ -176,7 +183,7 @@ class GenDir:
             self.broken = (c, None)
         elif how == 'element-missing-in-element-file':
             ef = rng.choice(efiles)
-            z = rng.choice(list(self.files[ef]['elements']))
+            z = rng.choice(sorted(set(self.files[ef]['elements']) & self.used.get(ef, set())) or list(self.files[ef]['elements']))
             del self.files[ef]['elements'][z]
             self.broken = (ef, z)
 
